@@ -11,6 +11,7 @@ import Driver.Container
 import Driver.HashSet
 import Driver.Str
 import Driver.Lang
+import Driver.VMOps
 import Driver.Target
 
 def main (args : List String) : IO UInt32 := do
@@ -28,5 +29,6 @@ def main (args : List String) : IO UInt32 := do
   | ["hashset"] => Driver.HashSet.main; return 0
   | ["str"] => Driver.Str.main; return 0
   | ["lang"] => Driver.Lang.main; return 0
+  | ["vmops"] => Driver.VMOps.main; return 0
   | ["target"] => Driver.Target.main; return 0
   | _ => IO.eprintln "usage: driver <area>"; return 2
